@@ -6,6 +6,7 @@ import Lean.Data.Json
 import Spil.Model.Find
 import Spil.Model.Path
 import Spil.Model.FS
+import Spil.Model.Cache
 import Spil.Spec.Sid
 import Spil.Generated.DemoConf
 
@@ -309,6 +310,31 @@ def step (st : State) (j : Json) : P Json := do
   | "unfold_search" =>
     return result (jlist jsid)
       (c.unfoldSearch (← fieldStr j "s") (← fieldBoolD j "u" false) (← fieldBoolD j "x" false))
+  | "make_key" =>
+    -- `caching._make_key(args, kwargs)` on string values
+    let call : Cache.Call Str := ⟨← listOf str (← field j "args"), ← dict (← field j "kwargs")⟩
+    let part : Cache.KeyPart Str → Json
+      | .val v => Json.arr #[Json.str "v", jstr v]
+      | .mark => Json.arr #[Json.str "mark"]
+      | .item n v => Json.arr #[Json.str "i", jstr n, jstr v]
+      | .name n => Json.arr #[Json.str "n", jstr n]
+    return Json.mkObj [("ok", jlist part (Cache.newKey call))]
+  | "cache_history" =>
+    -- a history of calls through lru_cache / hit_cache of a function returning `render(call)`
+    -- (the empty string, falsy, when the first positional is empty): per call (hit?, result)
+    let calls ← listOf (fun cj => do
+      return (⟨← listOf str (← field cj "args"), ← dict (← field cj "kwargs")⟩ : Cache.Call Str)) (← field j "calls")
+    let max ← (← field j "max").getNat?
+    let hit ← fieldBoolD j "hit_cache" false
+    let render (c : Cache.Call Str) : Str :=
+      if c.args.head? == some [] then [] else
+      Str.joinWith ',' c.args ++ ['|'] ++ Str.joinWith ',' ((Cache.sortKw c.kwargs).map (fun p => p.1 ++ '=' :: p.2))
+    let step (st : Cache.Store (List (Cache.KeyPart Str)) Str) (c : Cache.Call Str) :=
+      let wasHit := (st.lookup (Cache.newKey c)).isSome
+      let (st', r) := if hit then Cache.stepHit Cache.newKey render (fun r => !r.isEmpty) max Cache.popitem st c
+                      else Cache.stepLru Cache.newKey render max Cache.popitem st c
+      (st', Json.arr #[Json.bool wasHit, jstr r])
+    return Json.mkObj [("ok", jlist id (Cache.runHist step [] calls))]
   | "glob_match" =>
     return result jbool (Find.globMatch e (← fieldStr j "pat") (← fieldStr j "item"))
   | "find_list" =>
